@@ -323,7 +323,7 @@ func c16scanDyn(r *c16br, lh, dh *c16huff) bool {
 }
 
 // c16seqClass is the block-type sequence class: one letter per block (S/F/D,
-// lower case when the block holds no data), runs collapsed, first five groups.
+// lower case when the block holds no data), runs collapsed, first four groups.
 func c16seqClass(blks []c16blk) string {
 	var sb strings.Builder
 	groups := 0
@@ -342,11 +342,11 @@ func c16seqClass(blks []c16blk) string {
 		}
 		prev = c
 		groups++
-		if groups <= 5 {
+		if groups <= 4 {
 			sb.WriteByte(c)
 		}
 	}
-	if groups > 5 {
+	if groups > 4 {
 		sb.WriteByte('~')
 	}
 	if dict {
